@@ -183,11 +183,32 @@ func twin(r *rep.Report, e rep.Env) {
 							r.Violate("", "with existence checking a refused request to a never-created location left a trace in storage", wit)
 						}
 					}
+					deleted := false
+					if check {
+						// a location that was created and then deleted is a never-created location again
+						deleted = true
+						c1 := drv.SysDo(s, drv.Req{Op: "create", Loc: "dl"})
+						a1 := drv.SysDo(s, drv.Req{Op: "addFact", Loc: "dl", Id: "d1", Doc: `{"a":1}`})
+						derr := s.DeleteLocation(drv.Ctx(), "dl")
+						a2 := drv.SysDo(s, drv.Req{Op: "addFact", Loc: "dl", Id: "d2", Doc: `{"a":2}`})
+						g2 := drv.SysDo(s, drv.Req{Op: "getFact", Loc: "dl", Id: "d1"})
+						r.Count("requests_after_delete_location", 2)
+						r.Case(true, fmt.Sprint(e.BatchSeed(), hi, kind, ttlName, "deleted"))
+						wit := rep.J{"config": cfg, "create": c1, "add_before_delete": a1, "delete_error": drv.ErrStr(derr), "add_after_delete": a2, "get_after_delete": g2}
+						if c1 != "ok" || !strings.HasPrefix(a1, "id=") || derr != nil {
+							r.Violate("", "create / add / delete of a location failed", wit)
+						} else if !strings.HasPrefix(a2, "ERR:") || !(strings.HasPrefix(g2, "ERR:") || g2 == "notfound") {
+							r.Violate("", "with existence checking a request to a location that was deleted (and not created again) succeeded", wit)
+						}
+					}
 					if ttlName == "forever" {
 						stats, _ := s.GetStats(drv.Ctx())
 						want := uint64(3)
 						if check {
 							want = 4 // + the ghost attempt
+						}
+						if deleted {
+							want += 3 // create, and the attempts after the delete
 						}
 						if ghostParent {
 							want++
@@ -298,6 +319,77 @@ func first(r *rep.Report, e rep.Env) {
 		}
 	}
 	r.Note("hook_hits", hook.Hits())
+}
+
+// firstGhost: concurrent first requests for a location that was never created, with existence
+// checking on: the load of each entry fails.  Every request must come back with "not found"
+// (no hang: failing loads and waiting requests take the cache-table and the entry lock), the
+// location stays out of cache and storage, and other locations keep being served.
+func firstGhost(r *rep.Report, e rep.Env) bool {
+	rounds := e.Pick(12, 80)
+	for round := 0; round < rounds; round++ {
+		linear := round%2 == 1
+		ttlName := []string{"forever", "never", "1ms"}[round%3]
+		s, err := drv.NewSys(drv.SysOpts{Linear: linear, TTL: ttls[ttlName], CheckExistence: true}, cronner.New(true))
+		if err != nil {
+			continue
+		}
+		r.Journal(rep.J{"first_ghost": round, "ttl": ttlName, "linear": linear})
+		hook.Delays(e.BatchSeed()+int64(round)+5000, 0.7, 3*time.Millisecond, "sys.open.gap", "sys.storage.gap")
+		n := 6
+		acks := make([]string, n+1)
+		var wg sync.WaitGroup
+		gate := make(chan struct{})
+		for c := 0; c < n; c++ {
+			wg.Add(1)
+			go func(c int) {
+				defer wg.Done()
+				<-gate
+				op := drv.Req{Op: "addFact", Loc: "G", Id: fmt.Sprintf("g%d", c), Doc: `{"a":1}`}
+				if c%2 == 1 {
+					op = drv.Req{Op: "search", Loc: "G", Doc: `{"a":"?x"}`, NoInherit: true}
+				}
+				acks[c] = drv.SysDo(s, op)
+			}(c)
+		}
+		wg.Add(1)
+		go func() {
+			defer wg.Done()
+			<-gate
+			time.Sleep(2 * time.Millisecond)
+			drv.SysDo(s, drv.Req{Op: "create", Loc: "other"})
+			acks[n] = drv.SysDo(s, drv.Req{Op: "addFact", Loc: "other", Id: "o", Doc: `{"a":1}`})
+		}()
+		done := make(chan struct{})
+		go func() { close(gate); wg.Wait(); close(done) }()
+		select {
+		case <-done:
+		case <-time.After(30 * time.Second):
+			hook.Off()
+			r.Case(true, fmt.Sprint(e.BatchSeed(), "first-ghost", round))
+			r.Violate("", "concurrent requests to a never-created location (and a request to another location) did not return within 30 s (deadlock?)", rep.J{"ttl": ttlName, "linear": linear, "acks_so_far": fmt.Sprint(acks)})
+			return false
+		}
+		hook.Off()
+		r.Case(true, fmt.Sprint(e.BatchSeed(), "first-ghost", round))
+		r.Count("concurrent_requests_to_never_created_location", n)
+		wit := rep.J{"ttl": ttlName, "linear": linear, "acks": acks}
+		for c := 0; c < n; c++ {
+			if !strings.HasPrefix(acks[c], "ERR:") {
+				r.Violate("", "with existence checking a request to a never-created location succeeded", wit)
+				break
+			}
+		}
+		if !strings.HasPrefix(acks[n], "id=") {
+			r.Violate("", "a request to another (created) location failed while requests to a never-created one were failing: "+acks[n], wit)
+		}
+		for _, name := range s.GetCachedLocations(drv.Ctx()) {
+			if name == "G" {
+				r.Violate("", "with existence checking a request to a never-created location left a trace (storage or cache)", wit)
+			}
+		}
+	}
+	return true
 }
 
 // ---- overlap: register histories under TTL never ----
@@ -513,7 +605,9 @@ func main() {
 	case "twin":
 		twin(r, e)
 	case "first":
-		first(r, e)
+		if firstGhost(r, e) {
+			first(r, e)
+		}
 	case "overlap":
 		overlap(r, e)
 	}
